@@ -163,6 +163,8 @@ func entries() []entry {
 		proxyEntry("RequestHeader.SetHost+ProxyWrite", func(r *protocol.Request, a, b string) { r.Header.SetHost(b) }),
 		reqEntry("Request.SetHost-after-URI-parsed", false, func(r *protocol.Request, a, b string) { r.URI(); r.SetHost(b) }),
 		startLine(reqEntry("Request.SetHost+CONNECT", false, func(r *protocol.Request, a, b string) { r.Header.SetMethod("CONNECT"); r.URI(); r.SetHost(b) })),
+		startLine(reqEntry("RequestHeader.SetRequestURI", false, func(r *protocol.Request, a, b string) { r.Header.SetRequestURI("/" + b) })),
+		reqEntry("RequestHeader.SetContentLengthBytes", false, func(r *protocol.Request, a, b string) { r.Header.SetContentLengthBytes([]byte(b)) }),
 		startLine(reqEntry("RequestHeader.SetMethod", false, func(r *protocol.Request, a, b string) { r.Header.SetMethod(b) })),
 		// ---- Request
 		reqEntry("Request.SetHeader", true, func(r *protocol.Request, a, b string) { r.SetHeader(a, b) }),
@@ -188,6 +190,18 @@ func entries() []entry {
 		respEntry("ResponseHeader.SetContentTypeBytes", false, func(r *protocol.Response, a, b string) { r.Header.SetContentTypeBytes([]byte(b)) }),
 		respEntry("ResponseHeader.SetContentEncoding", false, func(r *protocol.Response, a, b string) { r.Header.SetContentEncoding(b) }),
 		respEntry("ResponseHeader.SetContentEncodingBytes", false, func(r *protocol.Response, a, b string) { r.Header.SetContentEncodingBytes([]byte(b)) }),
+		// the raw Content-Length setter: its bytes reach the wire when the body does not overwrite them
+		respEntry("ResponseHeader.SetContentLengthBytes+SkipBody", false, func(r *protocol.Response, a, b string) { r.Header.SetContentLengthBytes([]byte(b)); r.SkipBody = true }),
+		respEntry("ResponseHeader.SetContentLengthBytes+304", false, func(r *protocol.Response, a, b string) {
+			r.SetStatusCode(304)
+			r.Header.SetContentLengthBytes([]byte(b))
+		}),
+		{name: "ResponseHeader.SetContentLengthBytes+Header()", run: func(a, b string) []byte {
+			r := newResp()
+			r.Header.SetContentLengthBytes([]byte(b))
+			r.Header.Set("X-After", "2")
+			return append(append([]byte(nil), r.Header.Header()...), "BODY-BYTES"...)
+		}},
 		respEntry("ResponseHeader.SetServerBytes", false, func(r *protocol.Response, a, b string) { r.Header.SetServerBytes([]byte(b)) }),
 		respEntry("ResponseHeader.Set(Set-Cookie)", false, func(r *protocol.Response, a, b string) { r.Header.Set("Set-Cookie", a+"="+b) }),
 		respEntry("ResponseHeader.Set(Server)", false, func(r *protocol.Response, a, b string) { r.Header.Set("Server", b) }),
